@@ -64,7 +64,6 @@ fn truncate_str_impl<'a>(
                             // Should not happen, this means either unicode_segmentation
                             // graphemes are too wide, or the unicode_width is calculated wrong.
                             // Fallback:
-                            debug_assert!(width_of_grapheme <= 2, "strange grapheme width");
                             for _ in 0..display_width.saturating_sub(used) {
                                 result.push(fillchar);
                             }
